@@ -7,6 +7,8 @@ Notation: `X` training matrix (list of rows), `ids` the sensitive column positio
 `Z = nonSens ids m X`, `β = beta_` (a parameter: any matrix satisfying the normal equations).
 -/
 import FairModel.Lemmas.CorrRemover
+import FairModel.Lemmas.CorrLifted
+import FairModel.Lemmas.CorrUnique
 
 namespace C15
 open CorrRemover Finset
@@ -236,6 +238,238 @@ theorem drops_sensitive_keeps_order (p : Params) (X : Mat) :
     obtain ⟨x, _, rfl⟩ := hr
     exact length_transformRow p x
 
+/-! ### is the output well defined when `beta_` is not? (finding F10: rank-deficient `lstsq`)
+
+`numpy.linalg.lstsq` returns SOME solution of the normal equations; on collinear / duplicated / constant sensitive
+columns there are many.  The theorems below show that the property's output does not depend on which one:
+every solution gives the same residual, hence the same `fit_transform` output (and zero covariance, by `uncorrelated`).
+The coefficients themselves are unique exactly when the centred sensitive columns are linearly independent, i.e. when
+their Gram matrix is nonsingular.  F10 (covariance −0.0625 with `beta_ ≈ 4.9e14`) therefore is a pure floating-point
+artefact: the returned `beta_` does not solve the normal equations to working precision. -/
+
+/-- shape of the least-squares problem `fit` poses on a training matrix `X` -/
+theorem fit_problem_shaped (ids : List Nat) (m : Nat) (X : Mat) :
+    Shaped (center (sens ids X) (fitMean ids X)) (nonSens ids m X) ids.length (nonSensIdx ids m).length := by
+  have hm : (fitMean ids X).length = ids.length := by simp [fitMean, colMeans, length_vec]
+  refine ⟨by simp [center, sens, nonSens], ?_⟩
+  intro i hi
+  have hi' : i < X.length := by simpa [center, sens] using hi
+  constructor
+  · have : (center (sens ids X) (fitMean ids X)).getD i [] = vsub (pick ids (X.getD i [])) (fitMean ids X) := by
+      simp [center, sens, List.getD_eq_getElem?_getD, hi']
+    rw [this, length_vsub, length_pick, hm, Nat.min_self]
+  · have : (nonSens ids m X).getD i [] = pick (nonSensIdx ids m) (X.getD i []) := by
+      simp [nonSens, List.getD_eq_getElem?_getD, hi']
+    rw [this, length_pick]
+
+/-- `residual_unique`: ANY two coefficient matrices satisfying the normal equations (unique or not) give the same
+    residual `Z − Sc·β`, entry by entry. -/
+theorem residual_unique (Sc Z β₁ β₂ : Mat) (ms mz : Nat) (hs : Shaped Sc Z ms mz)
+    (h₁ : isLstsq Sc Z β₁ ms mz = true) (h₂ : isLstsq Sc Z β₂ ms mz = true) :
+    ∀ i, i < Sc.length → ∀ j, j < mz → ent (residual Sc Z β₁) i j = ent (residual Sc Z β₂) i j := by
+  intro i hi j hj
+  have n1 := (isLstsq_iff_normalEq Sc Z β₁ ms mz hs).mp h₁ j hj
+  have n2 := (isLstsq_iff_normalEq Sc Z β₂ ms mz hs).mp h₂ j hj
+  have hf := normalEq_fitted_unique _ _ _ _ _ _ n1 n2 i hi
+  have hjz : j < (Z.getD i []).length := by rw [(hs.2 i hi).2]; exact hj
+  rw [ent_residual Sc Z β₁ ms i j hi hs.1 (hs.2 i hi).1 hjz, ent_residual Sc Z β₂ ms i j hi hs.1 (hs.2 i hi).1 hjz, hf]
+
+/-- the `fit_transform` output (alpha = 1) is the same for EVERY least-squares solution `beta_` -/
+theorem output_independent_of_solution (ids : List Nat) (m : Nat) (X β₁ β₂ : Mat)
+    (h₁ : isLstsq (center (sens ids X) (fitMean ids X)) (nonSens ids m X) β₁ ids.length (nonSensIdx ids m).length = true)
+    (h₂ : isLstsq (center (sens ids X) (fitMean ids X)) (nonSens ids m X) β₂ ids.length (nonSensIdx ids m).length = true) :
+    transform (fitted ids m X β₁ 1) X = transform (fitted ids m X β₂ 1) X := by
+  have hs := fit_problem_shaped ids m X
+  unfold fitted
+  rw [transform_one_eq_residual, transform_one_eq_residual]
+  set Sc := center (sens ids X) (fitMean ids X) with hSc
+  set Z := nonSens ids m X with hZ
+  have hlen : ∀ β : Mat, (residual Sc Z β).length = Sc.length := by
+    intro β; simp [residual, hs.1]
+  have hrow : ∀ (β : Mat) i, i < Sc.length → ((residual Sc Z β).getD i []).length = (nonSensIdx ids m).length := by
+    intro β i hi
+    have : (residual Sc Z β).getD i [] = residRow β (Sc.getD i []) (Z.getD i []) := by
+      simp [residual, List.getD_eq_getElem?_getD, hi, hs.1 ▸ hi]
+    rw [this, length_residRow, (hs.2 i hi).2]
+  apply mat_ext
+  · rw [hlen, hlen]
+  · intro i hi
+    rw [hlen] at hi
+    rw [hrow β₁ i hi, hrow β₂ i hi]
+  · intro i hi j hj
+    rw [hlen] at hi
+    rw [hrow β₁ i hi] at hj
+    exact residual_unique Sc Z β₁ β₂ _ _ hs h₁ h₂ i hi j hj
+
+/-- the Gram matrix of the centred sensitive columns is nonsingular ⇔ these columns are linearly independent -/
+theorem gram_nonsingular_iff_independent (Sc : Mat) (ms : Nat) :
+    GramNonsingular (ent Sc) Sc.length ms ↔ ColumnsIndependent (ent Sc) Sc.length ms :=
+  gramNonsingular_iff_columnsIndependent _ _ _
+
+/-- `normal_equations_unique_iff`: given one solution `β₀` and at least one target column, the solution of the normal
+    equations is unique (entry-wise) exactly when the centred sensitive columns are linearly independent — equivalently
+    when their Gram matrix is nonsingular. -/
+theorem normal_equations_unique_iff (Sc Z β₀ : Mat) (ms mz : Nat) (hs : Shaped Sc Z ms mz) (hmz : 0 < mz)
+    (h₀ : isLstsq Sc Z β₀ ms mz = true) :
+    (∀ β, isLstsq Sc Z β ms mz = true → ∀ q, q < ms → ∀ j, j < mz → ent β q j = ent β₀ q j)
+      ↔ GramNonsingular (ent Sc) Sc.length ms := by
+  rw [gram_nonsingular_iff_independent]
+  have n0 := (isLstsq_iff_normalEq Sc Z β₀ ms mz hs).mp h₀
+  constructor
+  · intro hu
+    -- perturb column 0 of β₀ by a kernel vector d
+    rw [← normalEq_unique_iff (ent Sc) (fun i => ent Z i 0) Sc.length ms (fun q => ent β₀ q 0) (n0 0 hmz)]
+    intro w hw q hq
+    let β := matOf ms mz (fun q j => if j = 0 then w q else ent β₀ q j)
+    have hβ : isLstsq Sc Z β ms mz = true := by
+      rw [isLstsq_iff_normalEq Sc Z β ms mz hs]
+      intro j hj k hk
+      by_cases hj0 : j = 0
+      · subst hj0
+        have e : ∀ i ∈ Finset.range Sc.length, ent Sc i k * (ent Z i 0 - lin (ent Sc) ms (fun q => ent β q 0) i)
+            = ent Sc i k * (ent Z i 0 - lin (ent Sc) ms w i) := by
+          intro i _
+          rw [lin_congr (ent Sc) ms (fun q => ent β q 0) w i (by
+            intro q hq; simp only [β]; rw [ent_matOf _ _ _ _ _ hq hmz]; simp)]
+        rw [Finset.sum_congr rfl e]
+        exact hw k hk
+      · have e : ∀ i ∈ Finset.range Sc.length, ent Sc i k * (ent Z i j - lin (ent Sc) ms (fun q => ent β q j) i)
+            = ent Sc i k * (ent Z i j - lin (ent Sc) ms (fun q => ent β₀ q j) i) := by
+          intro i _
+          rw [lin_congr (ent Sc) ms (fun q => ent β q j) (fun q => ent β₀ q j) i (by
+            intro q hq; simp only [β]; rw [ent_matOf _ _ _ _ _ hq hj]; simp [hj0])]
+        rw [Finset.sum_congr rfl e]
+        exact n0 j hj k hk
+    have := hu β hβ q hq 0 hmz
+    simp only [β] at this
+    rw [ent_matOf _ _ _ _ _ hq hmz] at this
+    simpa using this
+  · intro hind β hβ q hq j hj
+    have nb := (isLstsq_iff_normalEq Sc Z β ms mz hs).mp hβ j hj
+    exact (normalEq_unique_iff (ent Sc) (fun i => ent Z i j) Sc.length ms (fun q => ent β₀ q j) (n0 j hj)).mpr hind
+      (fun q => ent β q j) nb q hq
+
+/-! ### the tie to the source: definitions LIFTED from `_correlation_remover.py`
+(`Generated/CorrRemoverSrc.lean`, rewritten from /repo on every run by harness/lifters/corr_remover.py; `CorrL.*` is the
+model re-built from them).  The clauses of the property are re-proved for the lifted text, so an edit of the centring,
+of the lstsq operands, of the blend expression, of the column selection or of what `transform` re-uses re-checks them,
+breaks them, or is refused by the lifter. -/
+
+section Lifted
+open CorrL
+set_option linter.unusedTactic false
+set_option linter.unreachableTactic false
+
+/-- `self.sensitive_mean_ = X_sensitive.mean(axis=0)`: one mean PER sensitive column -/
+theorem lifted_mean_per_column : CorrRemoverSrc.fitMeanKind = .perColumn := by decide
+
+/-- `X_s_center = X_sensitive - self.sensitive_mean_` (this operand order), in `fit` (first operand of lstsq) and in
+    `transform` -/
+theorem lifted_center : CorrRemoverSrc.fitCenter = (fun s m => s - m) ∧
+    CorrRemoverSrc.transformCenter = (fun s m => s - m) := by
+  constructor
+  · first
+    | rfl
+    | (funext s m; simp only [CorrRemoverSrc.fitCenter]; ring)
+  · first
+    | rfl
+    | (funext s m; simp only [CorrRemoverSrc.transformCenter]; ring)
+
+/-- `transform` centres with the STORED training mean (and multiplies with the stored `beta_`): nothing is re-estimated -/
+theorem lifted_transform_uses_training_statistics : CorrRemoverSrc.transformMean = .stored := by decide
+
+/-- `alpha * (X_use - X_s_center.dot(beta_)) + (1 - alpha) * X_use`, entry-wise -/
+theorem lifted_out_entry : CorrRemoverSrc.outEntry = (fun a u pr => a * (u - pr) + (1 - a) * u) := by
+  first
+  | rfl
+  | (funext a u pr; simp only [CorrRemoverSrc.outEntry]; ring)
+
+/-- `_split_X`: sensitive positions in the order of `sensitive_feature_ids`; the others = `range(m)` minus those, in
+    ORIGINAL (increasing) order -/
+theorem lifted_split (ids : List Nat) (m : Nat) : sensIdx ids = ids ∧ keptIdx ids m = nonSensIdx ids m := by
+  have h1 : sensIdx ids = ids := by
+    simp [sensIdx, CorrRemoverSrc.sensitiveIdx]
+  refine ⟨h1, ?_⟩
+  unfold keptIdx
+  rw [h1]
+  simp [CorrRemoverSrc.nonSensitiveIdx, nonSensIdx]
+
+/-- sensitive columns "given by position or by name": through the lifted `_create_lookup` tables, positions resolve to
+    themselves (ndarray) and the names of a DataFrame with distinct column names resolve to their positions, in the
+    order of `sensitive_feature_ids` -/
+theorem src_ids_by_position_or_name (cols : List Nat) (hn : cols.Nodup) (m : Nat) (ids : List Nat) :
+    ((∀ i ∈ ids, i < m) → CorrRemoverSrc.sensitiveIdx (CorrRemoverSrc.lookupArray m) ids = ids) ∧
+    (∀ (h : ∀ i ∈ ids, i < cols.length),
+      CorrRemoverSrc.sensitiveIdx (CorrRemoverSrc.lookupDataFrame cols) (ids.attach.map (fun i => cols[i.1]'(h i.1 i.2))) = ids) := by
+  constructor
+  · intro h
+    simp only [CorrRemoverSrc.sensitiveIdx]
+    conv_rhs => rw [← List.map_id ids]
+    apply List.map_congr_left
+    intro i hi
+    exact lookupArray_eq m i (h i hi)
+  · intro h
+    simp only [CorrRemoverSrc.sensitiveIdx, List.map_map]
+    conv_rhs => rw [← List.attach_map_subtype_val ids]
+    apply List.map_congr_left
+    intro i _
+    exact lookupDataFrame_eq cols hn i.1 (h i.1 i.2)
+
+/-- the model re-built from the lifted text is the model the theorems above are about -/
+theorem src_model_eq (p : Params) (X : Mat) (ids : List Nat) (m : Nat) (β : Mat) :
+    transformSrc p X = transform p X ∧ fitMeanSrc ids X = fitMean ids X ∧
+    isLstsqSrc ids m X β = isLstsq (center (sens ids X) (fitMean ids X)) (nonSens ids m X) β ids.length
+      (nonSensIdx ids m).length :=
+  ⟨transformSrc_eq p X lifted_transform_uses_training_statistics lifted_center.2 lifted_out_entry
+      (lifted_split p.ids p.m).1 (lifted_split p.ids p.m).2,
+   fitMeanSrc_eq ids X lifted_mean_per_column (lifted_split ids m).1,
+   isLstsqSrc_eq ids m X β lifted_mean_per_column lifted_center.1 (lifted_split ids m).1 (lifted_split ids m).2⟩
+
+/-- MAIN CLAUSE for the lifted text: if `beta_` solves the least-squares problem `lstsq` is CALLED with in the source
+    (operands as lifted), the alpha = 1 output of the lifted `transform` with the mean the lifted `fit` stores has zero
+    sample covariance with every sensitive column of the training data. -/
+theorem src_uncorrelated (ids : List Nat) (m : Nat) (X β : Mat) (hfit : isLstsqSrc ids m X β = true)
+    (j k : Nat) (hj : j < (keptIdx ids m).length) (hk : k < ids.length) :
+    covNum (colOf (transformSrc ⟨ids, m, fitMeanSrc ids X, β, 1⟩ X) j) (colOf (sensSrc ids X) k) = 0 ∧
+    cov (colOf (transformSrc ⟨ids, m, fitMeanSrc ids X, β, 1⟩ X) j) (colOf (sensSrc ids X) k) = 0 := by
+  have e := src_model_eq ⟨ids, m, fitMeanSrc ids X, β, 1⟩ X ids m β
+  rw [e.2.2] at hfit
+  rw [(lifted_split ids m).2] at hj
+  have hs : sensSrc ids X = sens ids X := by unfold sensSrc sens; rw [(lifted_split ids m).1]
+  rw [e.1, e.2.1, hs]
+  exact uncorrelated ids m X β hfit j k hj hk
+
+/-- alpha blend for the lifted `transform`: output = alpha * (alpha-1 output) + (1 - alpha) * original -/
+theorem src_alpha_blend (p : Params) (X : Mat) (i j : Nat) (hi : i < X.length)
+    (hj : j < (keptIdx p.ids p.m).length) :
+    ent (transformSrc p X) i j = p.alpha * ent (transformSrc { p with alpha := 1 } X) i j
+      + (1 - p.alpha) * ent (useSrc p.ids p.m X) i j := by
+  rw [(src_model_eq p X p.ids p.m []).1, (src_model_eq { p with alpha := 1 } X p.ids p.m []).1]
+  rw [(lifted_split p.ids p.m).2] at hj
+  unfold transform useSrc
+  rw [ent_map _ _ _ _ hi, ent_map _ _ _ _ hi, ent_map _ _ _ _ hi, (lifted_split p.ids p.m).2]
+  exact alpha_blend p (X.getD i []) j hj
+
+/-- the lifted `transform` works row by row with the STORED mean and coefficients: new data get the map learned in fit -/
+theorem src_transform_new_data (p : Params) (Xnew Ynew : Mat) :
+    transformSrc p Xnew = Xnew.map (transformRow p) ∧
+    transformSrc p (Xnew ++ Ynew) = transformSrc p Xnew ++ transformSrc p Ynew := by
+  rw [(src_model_eq p Xnew p.ids p.m []).1, (src_model_eq p (Xnew ++ Ynew) p.ids p.m []).1,
+    (src_model_eq p Ynew p.ids p.m []).1]
+  exact transform_new_data p Xnew Ynew
+
+/-- the lifted `_split_X`: kept positions = the non-sensitive ones in increasing order; one output column per kept
+    position, one output row per input row -/
+theorem src_drops_sensitive_keeps_order (p : Params) (X : Mat) :
+    (∀ c, c ∈ keptIdx p.ids p.m ↔ c < p.m ∧ c ∉ p.ids)
+    ∧ (keptIdx p.ids p.m).Pairwise (· < ·)
+    ∧ (transformSrc p X).length = X.length
+    ∧ (∀ r ∈ transformSrc p X, r.length = (keptIdx p.ids p.m).length) := by
+  rw [(src_model_eq p X p.ids p.m []).1, (lifted_split p.ids p.m).2]
+  exact drops_sensitive_keeps_order p X
+
+end Lifted
+
 /-! ### Regression witness for F2 (grand mean instead of per-column means)
 
 With `sensitive_mean_ = X_sensitive.mean()` (one scalar for all columns) the normal equations
@@ -264,7 +498,20 @@ def dupX : Mat := [[0, 0, 1], [1, 1, 3], [2, 2, 2]]
 example : isLstsq (center (sens [0, 1] dupX) (fitMean [0, 1] dupX)) (nonSens [0, 1] 3 dupX) [[1/2], [0]] 2 1 = true
     ∧ isLstsq (center (sens [0, 1] dupX) (fitMean [0, 1] dupX)) (nonSens [0, 1] 3 dupX) [[1/4], [1/4]] 2 1 = true := by
   decide +kernel
+/-- ... and the duplicated columns are NOT independent: d = (1, -1) is in the kernel of the centred block, so by
+    `normal_equations_unique_iff` the coefficients cannot be unique (the two solutions above) -/
+example : ∀ i, i < 3 → lin (ent (center (sens [0, 1] dupX) (fitMean [0, 1] dupX))) 2 (fun q => if q = 0 then 1 else -1) i = 0 := by
+  intro i hi
+  have : i = 0 ∨ i = 1 ∨ i = 2 := by omega
+  rcases this with rfl | rfl | rfl <;> (simp [lin, Finset.sum_range_succ]; decide +kernel)
 /-- ids given in non-increasing order: the kept columns still come out in their original order -/
 example : nonSensIdx [3, 0] 5 = [1, 2, 4] := by decide +kernel
+/-- the two different solutions for the duplicated columns give the same output (instance of `output_independent_of_solution`) -/
+example : transform (fitted [0, 1] 3 dupX [[1/2], [0]] 1) dupX = transform (fitted [0, 1] 3 dupX [[1/4], [1/4]] 1) dupX := by
+  decide +kernel
+example : CorrL.keptIdx [3, 0] 5 = [1, 2, 4] := by decide +kernel
+example : CorrRemoverSrc.sensitiveIdx (CorrRemoverSrc.lookupDataFrame [7, 5, 9]) [9, 7] = [2, 0] := by decide +kernel
+example : CorrL.isLstsqSrc [0, 1] 3 f2X okβ = true := by decide +kernel
+example : CorrL.transformSrc ⟨[0, 1], 3, CorrL.fitMeanSrc [0, 1] f2X, okβ, 1/2⟩ f2X = [[1/6], [1/6], [2/3]] := by decide +kernel
 
 end C15
